@@ -180,7 +180,12 @@ func main() {
 	verbose := flag.Bool("v", false, "verbose")
 	flag.Parse()
 	t0 := time.Now()
-	w := loadWorld("/repo")
+	// debug mode (-fn/-dump) may look at a scratch copy of the repository; `check` always reads /repo
+	dbgRepo := os.Getenv("GOVC_DEBUG_REPO")
+	if dbgRepo == "" {
+		dbgRepo = "/repo"
+	}
+	w := loadWorld(dbgRepo)
 	fmt.Fprintf(os.Stderr, "loaded in %.1fs, %d functions, %d contracts\n", time.Since(t0).Seconds(), len(w.FnByKey), len(w.Specs.Funcs))
 	if *dump != "" {
 		if fn := w.FnByKey[*dump]; fn != nil {
